@@ -111,5 +111,40 @@ __CPROVER_ensures(/*index-past-the-end-throws*/ feature_index >= tag->feature_co
 __CPROVER_ensures(/*valid-index-selects-that-feature*/ feature_index < tag->feature_count ==> (gh_backend_feature_gets == 1 && gh_backend_get_index == feature_index))
 NIX_CANARY(featureData_tag_index) __CPROVER_assigns(nix_exc, gh_views, gh_view_count_rank, gh_view_offset_rank, gh_view_count_k, gh_view_offset_k, gh_view_extent_dims, gh_tagged_calls, gh_backend_feature_gets, gh_backend_get_index)
 ;
+
+/* ---- getOffsetAndCount(const Tag&, ...): the per-dimension body of the assembly loop (region unit) ----
+   "the block of elements whose axis coordinate c satisfies p_d <= c <= p_d+e_d (inclusive) or p_d <= c < p_d+e_d
+   (exclusive) ...; a zero or absent extent selects the single first element at or after the position."
+   The two index lookups are ghost inputs with their C07 contracts assumed: the pair lookup is asked for
+   [position, position + extent] in the given mode; the point fallback asks for GreaterOrEqual(position). */
+typedef struct { size_t len; } nstring;
+typedef struct { int _d; } Dimension;
+extern opt_pair gh_pair; extern opt_ndsize gh_ge;
+extern double gh_pair_start, gh_pair_end; extern RangeMatch gh_pair_match; extern int gh_pair_calls;
+static inline opt_pair positionToIndex_pair1(double start, double end, const nstring *unit, RangeMatch match, const Dimension *dimension)
+{ gh_pair_calls++; gh_pair_start = start; gh_pair_end = end; gh_pair_match = match; return gh_pair; }
+NIX_THROWS opt_ndsize positionToIndex_scalar(double position, const nstring *unit, PositionMatch match, const Dimension *dimension)
+__CPROVER_requires(nix_exc == EXC_NONE && match == PositionMatch_GreaterOrEqual && (position == gh_pair_start || (isnan(position) && isnan(gh_pair_start))))   /* the point fallback asks for the first element AT OR AFTER the tag's position */
+__CPROVER_ensures(nix_exc == EXC_NONE || nix_exc == EXC_IncompatibleDimensions)
+__CPROVER_ensures(nix_exc == EXC_NONE ==> ((RV.has != 0) == (gh_ge.has != 0) && RV.val == gh_ge.val))
+__CPROVER_assigns(nix_exc)
+;
+#define T_OLD(p, k) __CPROVER_old((p)->dims[k])
+NIX_THROWS void tag_assemble_dim(NDSize *temp_offset, NDSize *temp_count, size_t i, double position_i, double extent_i, const nstring *unit_i, RangeMatch match, const Dimension *dimension_i)
+__CPROVER_requires(ND_OK(temp_offset) && ND_OK(temp_count) && temp_offset->rank == temp_count->rank && i < temp_offset->rank)
+__CPROVER_requires(__CPROVER_is_fresh(unit_i, sizeof(nstring)) && __CPROVER_is_fresh(dimension_i, sizeof(Dimension)) && nix_exc == EXC_NONE && gh_pair_calls == 0 &&
+                   (match == RangeMatch_Inclusive || match == RangeMatch_Exclusive))
+__CPROVER_ensures(/*region-asked-is-position-to-position-plus-extent-in-the-given-mode*/ gh_pair_calls == 1 && gh_pair_match == match &&
+                  (gh_pair_start == position_i || isnan(position_i)) && (gh_pair_end == position_i + extent_i || isnan(position_i + extent_i)))
+__CPROVER_ensures(/*region-with-elements:offset-is-first-index*/ gh_pair.has ==> (nix_exc == EXC_NONE && temp_offset->dims[i] == gh_pair.val.first))
+__CPROVER_ensures(/*region-with-elements:count-spans-to-last-index*/ gh_pair.has ==> temp_count->dims[i] == T_OLD(temp_count, i) + (gh_pair.val.second - gh_pair.val.first))
+__CPROVER_ensures(/*point:first-element-at-or-after-the-position*/ (!gh_pair.has && extent_i == 0.0 && gh_ge.has && nix_exc == EXC_NONE) ==>
+                  (temp_offset->dims[i] == gh_ge.val && temp_count->dims[i] == T_OLD(temp_count, i)))
+__CPROVER_ensures(/*point:no-element-at-or-after-throws*/ (!gh_pair.has && extent_i == 0.0 && !gh_ge.has) ==> nix_exc != EXC_NONE)
+__CPROVER_ensures(/*empty-region-throws*/ (!gh_pair.has && !(extent_i == 0.0)) ==> (nix_exc == EXC_OutOfBounds || nix_exc == EXC_IncompatibleDimensions))
+__CPROVER_ensures(/*other-dimensions-untouched*/ (ghost_k < temp_offset->rank && ghost_k != i) ==>
+                  (temp_offset->dims[ghost_k] == T_OLD(temp_offset, ghost_k) && temp_count->dims[ghost_k] == T_OLD(temp_count, ghost_k)))
+NIX_CANARY(tag_assemble_dim) __CPROVER_assigns(nix_exc, gh_pair_calls, gh_pair_start, gh_pair_end, gh_pair_match; temp_offset->dims[i]; temp_count->dims[i])
+;
 #undef RV
 #endif
